@@ -660,8 +660,10 @@ func neutralise(tree []any, mode, keep string) []any {
 }
 
 // attribute is the attribution discipline shared by format records and function-value records.
-//   found        hazards present in the case
-//   test(set,..) re-runs the case on the real code with the hazards of `set` neutralised: (still fails, usable)
+//
+//	found        hazards present in the case
+//	test(set,..) re-runs the case on the real code with the hazards of `set` neutralised: (still fails, usable)
+//
 // 1. no hazard, or still failing with all of them neutralised                 -> unexplained (a VIOLATION)
 // 2. hazards whose removal ALONE cures the case (the others stay in place)    -> these explain it
 // 3. otherwise hazards that, kept ALONE (all others removed), still fail      -> independent causes
